@@ -1,34 +1,3 @@
-use simcore::driver::{main_with, PropDef, Record};
-use simcore::prop::Verdict;
-
-fn c05_def() -> PropDef {
-    PropDef {
-        id: "C05",
-        generate: |seed, _| Record::Sim(simcore::c05::generate(seed)),
-        check: |rec, c| match rec {
-            Record::Sim(s) => simcore::c05::check(s, c),
-            _ => Verdict::harness("wrong record kind".into()),
-        },
-        candidates: |rec| match rec {
-            Record::Sim(s) => simcore::shrink::candidates(s).into_iter().map(Record::Sim).collect(),
-            _ => vec![],
-        },
-        runs_quick: 400_000,
-        runs_thorough: 40_000_000,
-        level: "exploration",
-        rule: "seeded type-directed expressions (<=3 rules, depth<=5, <=12 probes/rule) over all node kinds with call-logging non-cacheable probes and error leaves in every operand position, under seeded suspension schedules; a run is non-trivial when the order model took at least one lazy decision or error cut and at least one probe was invoked; distinct = distinct hashes of (tree shapes, decisions taken, outcome classes, suspension vector), counted as set bits of a 2^25-bit bitmap (a lower bound)",
-        assumptions: &[
-            "the value of a strict operator applied to already-evaluated constants is taken from reval itself (order, laziness and exactly-once are modelled independently)",
-            "`x in y` is generated with at most one effectful operand; unknown functions get a constant argument (don't-care zones of the statement)",
-            "sampled, bounded: depth<=5, <=30 nodes/rule, <=3 suspensions per call",
-        ],
-        real_components: &["RuleSet::evaluate_value", "Expr::eval_rec and all operator functions", "EvalContext", "UserFunctions::call", "Builder", "Rule::parse/lalrpop parser (text-built runs)", "async_trait/async_recursion futures"],
-        stub_components: &["executor and wakers", "virtual clock", "user functions (ProbeFn scripts)", "input values"],
-        expected_hits: &["hit.map_insertion_order_differs_from_key_order", "fault.fn_error", "fault.fn_suspend_selfwake", "fault.fn_suspend_deferred"],
-    }
-}
-
 fn main() {
-    let defs = vec![c05_def()];
-    std::process::exit(main_with(&defs));
+    std::process::exit(simcore::driver::main_with(&simcore::props::all()));
 }
